@@ -108,14 +108,17 @@ theorem no_password_key_read :
       k != ".sasl-password" && k != ".api-key") = true := by decide
 
 /-- the only reads of package httpserver that return a whole TABLE (regenerated from the source on every
-    run): the six kind tables, of which only the keys are shown (module lists) or tested
+    run, each with its enclosing function and the number of such calls there): the six kind tables, of which only the keys are shown (module lists) or tested
     (`moduleConfigured`), and — from the notifier table — the `extras` map of the requested module
     (`notifierExtras`, since the repair of D20; the model carries it as `Cfg.leavesUnder` of the
     module's own table and the differential run compares it entry by entry).  A handler that starts
     returning another table (a new map-valued setting, a module's raw section) breaks this. -/
 theorem table_reads_are_the_modelled_ones :
-    viperTableReads = ["GetStringMap \"cluster\"", "GetStringMap \"consumer\"", "GetStringMap \"evaluator\"",
-      "GetStringMap \"httpserver\"", "GetStringMap \"notifier\"", "GetStringMap \"storage\"", "GetStringMap _"] := by decide
+    viperTableReads = ["Configure: GetStringMap \"httpserver\" x2", "configClusterList: GetStringMap \"cluster\" x1",
+      "configConsumerList: GetStringMap \"consumer\" x1", "configEvaluatorList: GetStringMap \"evaluator\" x1",
+      "configMain: GetStringMap \"httpserver\" x1", "configNotifierList: GetStringMap \"notifier\" x1",
+      "configStorageList: GetStringMap \"storage\" x1", "moduleConfigured: GetStringMap _ x1",
+      "notifierExtras: GetStringMap \"notifier\" x1"] := by decide
 
 /-- the field tables of the model read no key suffix that the source does not contain: every suffix
     the model's handlers read is one of the generated literals (a handler that starts reading a new
